@@ -197,4 +197,18 @@ def attrRaceVerdict (nAttrs dupKeys : Nat) (conc : Bool) (obs : String) : Option
   else if obs == "race" && F36_applies nAttrs dupKeys conc then some true
   else none
 
+/-! ### Finding F45 (fixed by 30d2a20; data race + mis-attribution; an OBSERVATION, no theorem speaks about data races)
+
+Scenario `optsrace spare shared g`: `g` goroutines record errors on DIFFERENT spans, passing `opts...` where `opts` has
+`spare` unused capacity and is one slice for all of them (`shared`) or one per goroutine. `RecordError` used to do
+`opts = append(opts, WithAttributes(exception.type, exception.message))`: with spare capacity that wrote the caller's
+backing array in place, outside any lock common to the two spans — a data race, and spans recorded each other's
+exception.message. Now `opts = append(opts[:len(opts):len(opts)], …)`: always a fresh array. -/
+/-- where the ORIGINAL code raced (used for the coverage accounting only) -/
+def F45_applies (spare : Nat) (shared : Bool) (goroutines : Nat) : Bool :=
+  shared && decide (spare > 0) && decide (goroutines ≥ 2)
+
+/-- the only acceptable observation: no race reported and no span carrying another span's exception.message -/
+def optsRaceOK (obs mis : String) : Bool := obs == "norace" && mis == "same"
+
 end Otel.C10.Spec
